@@ -18,7 +18,7 @@ for h in _w:
         g.tiers = ("quick", "thorough") if ("_short" in h.name or "_float" in h.name) else ("thorough",)
         HARNESSES.append(g)
 # descriptor isolation: a descriptor number the library already closed is never closed again (it may belong to another handle by then)
-HARNESSES += [h for h in _load("C14").HARNESSES if h.name == "fileio.ownership"]
+HARNESSES += [h for h in _load("C14").HARNESSES if h.name.startswith("fileio.ownership")]
 HARNESSES += _load("blk_common").ms_harnesses(("SEL_INIT",))
 
 META = {"assumptions": ["I_open", "E-posix"], "outside": ["more than two handles (pairwise + induction)", "threads"]}
